@@ -280,8 +280,11 @@ func NewFont(ld *ot.Loader) (*Font, error) {
 		out.mvar, _ = newMvar(mvar, axisCount)
 
 		raw, _ = ld.RawTable(ot.MustNewTag("gvar"))
-		gvar, _, _ := tables.ParseGvar(raw)
-		out.gvar, _ = newGvar(gvar, out.glyf)
+		gvarT, _, _ := tables.ParseGvar(raw)
+		out.gvar, _ = newGvar(gvarT, out.glyf)
+		if !out.gvar.hasAxisCount(axisCount) { // ignore an invalid table
+			out.gvar = gvar{}
+		}
 
 		raw, _ = ld.RawTable(ot.MustNewTag("HVAR"))
 		hvar, _, err := tables.ParseHVAR(raw)
